@@ -55,8 +55,7 @@ Section Dict.
   (* MailboxSet.list_mailboxes / list_subscribed *)
   Definition d_tree (st : dstate) : tree := tupdate (INBOX :: keys st).
   Definition d_subtree (st : dstate) : tree :=
-    tupdate (INBOX :: filter (fun k => match alookup k (d_subs st) with
-                                       | Some true => true | _ => false end) (keys st)).
+    tupdate (INBOX :: map fst (filter (fun kv : name * bool => snd kv) (d_subs st))).
 
   (* MailboxSet.get_mailbox (names are already normalised by the parser) *)
   Definition d_get (st : dstate) (n : name) : option mbox :=
